@@ -7,7 +7,7 @@
    Spec.v   : the value-type reference semantics (spec_step / spec_run : a wrapper is option N).
    All theorems quantify over ALL histories (no length bound) and both payload flavours z. *)
 From Common Require Import Prelude.
-From C09 Require Import Model Spec Proofs Proofs2 ProofsAny ProofsAny2.
+From C09 Require Import Model Spec Env Proofs Proofs2 ProofsAny ProofsAny2 ProofsEnv.
 Local Open Scope N_scope.
 
 (* ---- 1. one step of the storage machine realises one step of the value semantics, never a
@@ -264,6 +264,33 @@ Theorem any_skip_if_equal_refuted :
 Proof. exact ProofsAny.skip_if_equal_refuted. Qed.
 Print Assumptions any_skip_if_equal_refuted.
 
+(* ---- 14. getEnvVar.h: the Optional returned by getEnvVar<int|float|std::string>(name) is engaged
+        exactly when name is set at that moment - set to the EMPTY string included - and holds the
+        conversion of exactly that string (atoi / atof are oracle parameters; the std::string case
+        is the string itself); histories with environment operations are ordinary Optional
+        histories (desugar), so every theorem above applies to them *)
+Theorem getenv_engaged_iff_set : forall (atoi atof : N -> N) z h i k n,
+  fst (spec_run z aempty (desugar atoi atof h)) i = None ->
+  let str := env_after atoi atof env0 h n in
+  r_outs (run (fixed_cfg z) (desugar atoi atof (h ++ [GetEnv i k n; EOp (HasValue i); EOp (Value i)]))) =
+  r_outs (run (fixed_cfg z) (desugar atoi atof h)) ++
+    [Some OUnit; Some (OBool (is_some str)); Some (OVal (option_map (parse atoi atof k) str))].
+Proof. exact ProofsEnv.getenv_engaged_iff_set. Qed.
+Print Assumptions getenv_engaged_iff_set.
+
+Theorem getenv_sees_last_set : forall (atoi atof : N -> N) h n sid,
+  env_after atoi atof env0 (h ++ [EnvSet n sid]) n = Some sid /\
+  env_after atoi atof env0 (h ++ [EnvUnset n]) n = None.
+Proof. intros. split; [apply ProofsEnv.env_after_set | apply ProofsEnv.env_after_unset]. Qed.
+Print Assumptions getenv_sees_last_set.
+
+Theorem getenv_histories_are_optional_histories : forall (atoi atof : N -> N) z h w,
+  r_err (run_closed (fixed_cfg z) (desugar atoi atof h)) = None /\
+  lifecycle w (r_log (run_closed (fixed_cfg z) (desugar atoi atof h))) = Some false /\
+  r_outs (run (fixed_cfg z) (desugar atoi atof h)) = snd (spec_run z aempty (desugar atoi atof h)).
+Proof. exact ProofsEnv.getenv_histories_safe. Qed.
+Print Assumptions getenv_histories_are_optional_histories.
+
 (* ---- non-vacuity: concrete histories exercising the hypotheses / the interesting paths *)
 Example ex_assign_from_empty :
   r_outs (run (fixed_cfg true) [CtorValue 0 false 5; CtorDefault 1 false; AssignCopy 0 1; HasValue 0; Value 0]) =
@@ -328,3 +355,11 @@ Example ex_optional_shadow :
   [Some OUnit; Some OUnit; Some (OBool true); Some (OBool false); Some (OBool true);
    Some OUnit; Some (OVal (Some 6)); Some OUnit; Some OUnit; Some (OBool true); Some OUnit; Some (OVal (Some 1))].
 Proof. vm_compute. reflexivity. Qed.
+
+Example ex_getenv_empty_string_engaged :
+  let h := [EnvSet 0 0; GetEnv 0 KInt 0; GetEnv 1 KFloat 0; GetEnv 2 KStr 0; GetEnv 3 KStr 7;
+            EOp (Value 0); EOp (Value 1); EOp (Value 2); EOp (HasValue 3)] in
+  r_outs (run (fixed_cfg true) (desugar atoi_code atof_code h)) =
+  [Some OUnit; Some OUnit; Some OUnit; Some OUnit;
+   Some (OVal (Some 0)); Some (OVal (Some 0)); Some (OVal (Some 0)); Some (OBool false)].
+Proof. exact ProofsEnv.getenv_empty_string_engaged. Qed.
